@@ -6,7 +6,7 @@ the grammar inside `Module.parseString` (a pre-pass over the text, a post-pass o
 recurses).  This script parses scaled inputs in FRESH SUBPROCESSES (a runaway C-level loop, e.g. a backtracking
 regular expression, cannot be interrupted in-process) and looks at CPU time only through very wide margins:
 
-  * every parse must finish within TIMEOUT seconds of wall clock (unchanged tree: < 3 s for every input here);
+  * every parse must finish within TIMEOUT (90) seconds of wall clock (unchanged tree: < 5 s of CPU for every input here);
   * CPU time may grow by at most RATIO_MAX from one parameter to the next (unchanged tree: < 2; an exponential
     mechanism doubles per unit step, i.e. >= 16 per step of 4), judged only when the smaller time is >= T_FLOOR.
 
@@ -16,6 +16,9 @@ Families (parameters chosen so that the unchanged tree needs about a second for 
   open_comment_in_string   a default value "/*" followed by n one-line declarations, no "*/" anywhere   (text pre-passes)
   slashes_in_string        a default value "//" in every one of n declarations  (same)
   long_line        one declaration with n arguments on a single line            (line-oriented pre-passes)
+  op_nested        operator overloads whose operand/return type has template nesting depth d   (parse actions that walk types)
+  tmpl_list_nested `template<T = {...}>` lists (class, method, static method, function) holding a type of depth d   (same)
+  every_position_nested   the depth-d type as typedef, ctor/method/static/function argument and return, pair<>, property
 
 Output: JSON {ok, rows: [...], first_failure}.
 """
@@ -25,7 +28,7 @@ import subprocess
 import sys
 import tempfile
 
-TIMEOUT = 40.0
+TIMEOUT = 90.0
 RATIO_MAX = 6.0
 T_FLOOR = 0.25
 
@@ -70,12 +73,41 @@ def long_line(n):
     return "void wide(" + ", ".join("const gtsam::Pose3& p%d" % i for i in range(n)) + ");\n"
 
 
+def _nested(d, head="ns::Vec"):
+    return (head + "<") * d + "double" + ">" * d
+
+
+def op_nested(d):
+    t = _nested(d)
+    return ("namespace ns {\ntemplate<T> class Vec {};\nclass Field {\n  Field();\n"
+            "  %s operator+(const %s& other) const;\n  %s operator*(const %s& other) const;\n"
+            "  %s operator-() const;\n  %s sum(const %s& other) const;\n};\n}\n") % (t, t, t, t, t, t, t)
+
+
+def tmpl_list_nested(d):
+    return ("namespace ns {\ntemplate<S> class Vec {};\ntemplate<T = {%s, double}>\nclass Holder {\n  Holder();\n"
+            "  void set(const T& value);\n  template<U = {%s}>\n  void assign(const U& value);\n"
+            "  template<V = {%s}>\n  static V make(int n);\n};\n"
+            "template<W = {%s, int}>\nW freeOf(const W& w);\n}\n") % (_nested(d), _nested(d - 1), _nested(d - 2), _nested(d))
+
+
+def every_position_nested(d):
+    t = _nested(d)
+    return ("namespace ns {\ntemplate<S> class Vec {};\ntypedef %s Deep;\nclass Base {};\n"
+            "class User : ns::Base {\n  User(const %s& a, %s b);\n  %s get() const;\n  static %s Make(const %s& a);\n"
+            "  pair<%s, %s> both(%s* p) const;\n  %s field;\n};\n"
+            "%s freeFn(const %s& x, %s y);\n}\n") % ((t,) * 13)
+
+
 FAMILIES = [
     ("ns_deep", ns_deep, [10, 14, 18, 22], [10, 14, 18, 22, 26, 30]),
     ("ns_deep_leafcls", ns_deep_leafcls, [14, 18, 22, 26], [14, 18, 22, 26, 30, 34]),
     ("open_comment_in_string", open_comment_in_string, [8, 16, 24, 32], [8, 16, 24, 32, 48, 64, 128]),
     ("slashes_in_string", slashes_in_string, [8, 16, 32], [8, 16, 32, 64, 128]),
     ("long_line", long_line, [50, 100, 200], [50, 100, 200, 400, 800]),
+    ("op_nested", op_nested, [8, 12, 16, 20, 24], [8, 12, 16, 20, 24, 28, 32]),
+    ("tmpl_list_nested", tmpl_list_nested, [8, 12, 16, 20, 24], [8, 12, 16, 20, 24, 28, 32]),
+    ("every_position_nested", every_position_nested, [8, 12, 16, 20, 24], [8, 12, 16, 20, 24, 28, 32]),
 ]
 
 
